@@ -373,7 +373,10 @@ func (m *IntegerPreAgg) release() {
 }
 
 func (m *IntegerPreAgg) addMin(value float64, tm int64) {
-	v := int64(value)
+	m.addMinInt(int64(value), tm)
+}
+
+func (m *IntegerPreAgg) addMinInt(v int64, tm int64) {
 	if v < m.values[minIndex] {
 		m.values[minIndex] = v
 		m.values[minTIndex] = tm
@@ -385,7 +388,10 @@ func (m *IntegerPreAgg) addMin(value float64, tm int64) {
 }
 
 func (m *IntegerPreAgg) addMax(value float64, tm int64) {
-	v := int64(value)
+	m.addMaxInt(int64(value), tm)
+}
+
+func (m *IntegerPreAgg) addMaxInt(v int64, tm int64) {
 	if v > m.values[maxIndex] {
 		m.values[maxIndex] = v
 		m.values[maxTIndex] = tm
@@ -399,8 +405,8 @@ func (m *IntegerPreAgg) addSum(v float64) { m.values[sumIndex] += int64(v) }
 func (m *IntegerPreAgg) addCount(n int64) { m.values[countIndex] += n }
 
 func (m *IntegerPreAgg) merge(other *IntegerPreAgg) {
-	m.addMin(float64(other.values[minIndex]), other.values[minTIndex])
-	m.addMax(float64(other.values[maxIndex]), other.values[maxTIndex])
+	m.addMinInt(other.values[minIndex], other.values[minTIndex])
+	m.addMaxInt(other.values[maxIndex], other.values[maxTIndex])
 	m.values[sumIndex] += other.values[sumIndex]
 	m.values[countIndex] += other.values[countIndex]
 }
